@@ -477,9 +477,12 @@ def parseFts (t : String) : Option (Option (List FT)) :=
 def ftName : FT → String
   | .operations => "o" | .machines => "m" | .jobs => "j"
 
+/-- feature values are float32 in the library: magnitudes from 2^24 on are not exact there and are not compared -/
+def fmtFeat (v : Int) : String := if v.natAbs ≥ 16777216 then "big" else toString v
+
 def fmtFObs (I : Instance) (id : Nat) (o : FObs) : String :=
   let cols := " ".intercalate (o.cols.map fun (ft, cs) =>
-    ftName ft ++ "=" ++ ";".intercalate (cs.map fun c => ",".intercalate (c.map toString)))
+    ftName ft ++ "=" ++ ";".intercalate (cs.map fun c => ",".intercalate (c.map fmtFeat)))
   match o.kind with
   | .unscheduled => s!"{id}:unscheduled " ++ " ".intercalate (o.deques.map fun d => lst (fmtRefs I d))
   | .history => s!"{id}:history " ++ " ".intercalate (o.hist.map (fmtSOp I))
@@ -500,7 +503,7 @@ def fmtEObs (o : EObs) : String :=
   let rm := " ".intercalate (o.removed.map fun b => if b then "1" else "0")
   let ei := " ".intercalate (o.edgeIndex.map fun uv => s!"{uv.1}>{uv.2}")
   let fs := " ".intercalate (o.feats.map fun (ft, cs) =>
-    ftName ft ++ "=" ++ ";".intercalate (cs.map fun c => ",".intercalate (c.map toString)))
+    ftName ft ++ "=" ++ ";".intercalate (cs.map fun c => ",".intercalate (c.map fmtFeat)))
   s!"rm {rm} | ei {ei} | {fs}"
 
 def fmtSpace (sp : Space) : String :=
